@@ -508,7 +508,9 @@ class BGP(protocol.Protocol):
         :return:
         """
 
-        self.msg_recv_stat['Opens'] += 1
+        if len(msg) >= 10:
+            # only a message that has at least the fixed-size part is an OPEN
+            self.msg_recv_stat['Opens'] += 1
         open_msg = Open()
         parse_result = open_msg.parse(msg)
         if self.fsm.bgp_peering.peer_asn != open_msg.asn:
